@@ -10,6 +10,7 @@ INVARIANT CodegenClean
 INVARIANT CrashNeverLegal
 INVARIANT NoLimbo
 INVARIANT ViewChecked
+INVARIANT SpanMeaning
 INVARIANT Publish
 INVARIANT PublishBad
 CHECK_DEADLOCK FALSE
